@@ -211,6 +211,11 @@ def setPart (s : State) (p : Part) (mp : MPart) : State :=
   { s with font := { s.font with parts := AL.set s.font.parts p mp } }
 
 
+/-- a layer created from its glyph set (`LayerSet.newLayer(name, glyphSet)`): the keys are the glyph
+set's names, the layer info is read and stamped -/
+def openLayer (ln : String) (dl : DLayer) : MLayer :=
+  { keys := AL.keys dl.glifs, info := dl.info, infoStamp := some dl.info, gs := some ⟨ln, AL.keys dl.glifs, true⟩ }
+
 /-! ## Lazy getters and in-memory edits of the top-level objects -/
 
 /-- read a top-level object from the live disk (a fresh reader) and stamp it -/
@@ -294,8 +299,19 @@ def existsAnywhere (s : State) (gn : String) : Bool :=
     | none => false
     | some l => inLayer l gn
 
-/-- `del layer[name]` (`_deleteGlyph` after the F9 fix: the file being scheduled is stamped when the
-glyph carries no stamp) + the font's glyph-order callback.  The state is returned also when an
+/-- the stamp recorded for a file that is being scheduled for deletion (F9 fix): the stamp of the
+loaded glyph if it carries one, else the state of the file as the bound glyph set sees it -/
+def schedStamp (s : State) (l : MLayer) (b : GS) (gn : String) : Except Err (Option File) :=
+  match (AL.get? l.glyphs gn).bind (·.stamp) with
+  | some f => .ok (some f)
+  | none => if !b.alive then .error .filesystemClosed else .ok (glifOf (view s) b.lname gn)
+
+/-- the end of `Layer.__delitem__`: the font's glyph-order callback reads the lib when the name is
+gone from every layer -/
+def afterDelete (s : State) (gn : String) : State :=
+  if existsAnywhere s gn then s else loadPart s .lib
+
+/-- `del layer[name]` (`_deleteGlyph` after the F9 fix).  The state is returned also when an
 exception interrupts the method. -/
 def delGlyph (s : State) (ln gn : String) : State × Option Err :=
   match getLayer s ln with
@@ -303,23 +319,15 @@ def delGlyph (s : State) (ln gn : String) : State × Option Err :=
   | some l =>
     if inLayer l gn = false then (s, some .keyError)
     else
-      let st0 : Option File := match AL.get? l.glyphs gn with
-        | some g => g.stamp
-        | none => none
       let l1 := { l with glyphs := AL.erase l.glyphs gn, keys := setDel l.keys gn }
-      let fin (l2 : MLayer) : State × Option Err :=
-        let s2 := setLayer s ln l2
-        (if existsAnywhere s2 gn then s2 else loadPart s2 .lib, none)
       match l.gs with
-      | none => fin l1
-      | some g =>
-        if gn ∈ g.contents then
-          match st0 with
-          | some f => fin { l1 with sched := AL.set l1.sched gn (some f) }
-          | none =>
-            if !g.alive then (setLayer s ln l1, some .filesystemClosed)
-            else fin { l1 with sched := AL.set l1.sched gn (glifOf (view s) g.lname gn) }
-        else fin l1
+      | none => (afterDelete (setLayer s ln l1) gn, none)
+      | some b =>
+        if gn ∈ b.contents then
+          match schedStamp s l b gn with
+          | .ok st => (afterDelete (setLayer s ln { l1 with sched := AL.set l1.sched gn st }) gn, none)
+          | .error e => (setLayer s ln l1, some e)
+        else (afterDelete (setLayer s ln l1) gn, none)
 
 /-! ## The layer set -/
 
@@ -380,31 +388,39 @@ def fsLoad (s : State) (img : Bool) (n : String) : Except Err (State × Option B
         let e' : Entry := { data := some f.blob, dirty := false, onDisk := true, modTime := some f.mtime, digest := some f.blob }
         .ok (setFS s img { fs with entries := AL.set fs.entries n e' }, some f.blob)
 
+/-- `__setitem__`, first part: an entry scheduled for deletion is taken back with its stamping -/
+def unsched (fs : FileSet) (n : String) : FileSet :=
+  match AL.get? fs.sched n with
+  | some e => { entries := AL.set fs.entries n e, sched := AL.erase fs.sched n }
+  | none => fs
+
+/-- `__setitem__`, second part: a new entry, or (after reading the file if it was not loaded, so
+that the stamping is right) new data under the old stamping.  Assigning the image it already holds
+to an image entry changes nothing. -/
+def fsAssign (s : State) (img : Bool) (n : String) (b : Blob) : State × Option Err :=
+  let fs1 := getFS s img
+  match AL.get? fs1.entries n with
+  | none =>
+    let e' : Entry := { data := some b, dirty := true, onDisk := false, modTime := none, digest := none }
+    (setFS s img { fs1 with entries := AL.set fs1.entries n e' }, none)
+  | some _ =>
+    match fsLoad s img n with
+    | .error e => (s, some e)
+    | .ok (s2, cur) =>
+      if img ∧ cur = some b then (s2, none)
+      else
+        let fs2 := getFS s2 img
+        match AL.get? fs2.entries n with
+        | none => (s2, none)
+        | some e =>
+          let e' : Entry := { data := some b, dirty := true, onDisk := e.onDisk, modTime := e.modTime, digest := e.digest }
+          (setFS s2 img { fs2 with entries := AL.set fs2.entries n e' }, none)
+
 /-- `__setitem__` -/
 def fsSet (s : State) (img : Bool) (n : String) (b : Blob) : State × Option Err :=
   let fs := getFS s img
   if AL.contains fs.sched n ∧ AL.contains fs.entries n then (s, some .assertionError)
-  else
-    let fs1 : FileSet := match AL.get? fs.sched n with
-      | some e => { entries := AL.set fs.entries n e, sched := AL.erase fs.sched n }
-      | none => fs
-    let s1 := setFS s img fs1
-    match AL.get? fs1.entries n with
-    | none =>
-      let e' : Entry := { data := some b, dirty := true, onDisk := false, modTime := none, digest := none }
-      (setFS s1 img { fs1 with entries := AL.set fs1.entries n e' }, none)
-    | some _ =>
-      match fsLoad s1 img n with
-      | .error e => (s1, some e)
-      | .ok (s2, cur) =>
-        if img ∧ cur = some b then (s2, none)
-        else
-          let fs2 := getFS s2 img
-          match AL.get? fs2.entries n with
-          | none => (s2, none)
-          | some e =>
-            let e' : Entry := { data := some b, dirty := true, onDisk := e.onDisk, modTime := e.modTime, digest := e.digest }
-            (setFS s2 img { fs2 with entries := AL.set fs2.entries n e' }, none)
+  else fsAssign (setFS s img (unsched fs n)) img n b
 
 /-- `__delitem__` -/
 def fsDel (s : State) (img : Bool) (n : String) : State × Option Err :=
@@ -551,79 +567,110 @@ def partChanged (d : Disk) (p : Part) (st : PStamp) : Bool :=
 /-- does the file differ from the stamp: time first, then bytes -/
 def fileChanged (f : File) (st : File) : Bool := f.mtime != st.mtime && f.blob != st.blob
 
+/-- is `gn`, a name on disk that is not among the keys, a new glyph?  Not when it is scheduled for
+deletion and still the file that was scheduled (F9 fix: time first, then the GLIF text) -/
+def isAddedGlyph (d : Disk) (ln : String) (l : MLayer) (gn : String) : Bool :=
+  decide (gn ∉ l.keys) &&
+  (match AL.get? l.sched gn with
+    | none => true
+    | some none => true
+    | some (some st) =>
+      match glifOf d ln gn with
+      | some f => fileChanged f st
+      | none => false)
+
+def layerAdded (d : Disk) (ln : String) (l : MLayer) : List String :=
+  (glifNames d ln).filter (isAddedGlyph d ln l)
+
+def layerDeleted (d : Disk) (ln : String) (l : MLayer) : List String :=
+  l.keys.filter fun gn => decide (gn ∉ glifNames d ln)
+
+/-- a loaded glyph is modified when it carries a stamp (fix 7) and its file differs from it -/
+def isModifiedGlyph (d : Disk) (ln : String) (p : String × MGlyph) : Option String :=
+  match glifOf d ln p.1, p.2.stamp with
+  | some f, some st => if fileChanged f st then some p.1 else none
+  | _, _ => none
+
+def layerModified (d : Disk) (ln : String) (l : MLayer) : List String :=
+  l.glyphs.filterMap (isModifiedGlyph d ln)
+
 /-- `Layer.testForExternalChanges`: (modified, added, deleted) against layer `ln` of the disk -/
 def layerTest (d : Disk) (ln : String) (l : MLayer) : List String × List String × List String :=
-  let names := glifNames d ln
-  let added := names.filter fun gn =>
-    decide (gn ∉ l.keys) &&
-    (match AL.get? l.sched gn with
-      | none => true
-      | some none => true
-      | some (some st) =>
-        match glifOf d ln gn with
-        | some f => fileChanged f st
-        | none => false)
-  let deleted := l.keys.filter fun gn => decide (gn ∉ names)
-  let modified := l.glyphs.filterMap fun p =>
-    match glifOf d ln p.1, p.2.stamp with
-    | some f, some st => if fileChanged f st then some p.1 else none
-    | _, _ => none
-  (modified, added, deleted)
+  (layerModified d ln l, layerAdded d ln l, layerDeleted d ln l)
 
 /-- the layer after its test: bound to a glyph set of the new reader (contents rebuilt), the
 added names taken into the keys and unscheduled -/
 def layerAfterTest (d : Disk) (ln : String) (l : MLayer) : MLayer :=
-  let added := (layerTest d ln l).2.1
+  let added := layerAdded d ln l
   { l with keys := added.foldl setAdd l.keys
            sched := added.foldl (fun sc gn => AL.erase sc gn) l.sched
            gs := some ⟨ln, glifNames d ln, true⟩ }
 
 def wasDeletedInMemory (h : List Action) (n : String) : Bool := decide (Action.delete n ∈ h)
 
-/-- `ImageSet/DataSet.testForExternalChanges` (after the digest fix) -/
+/-- a file on disk that is not listed: new, unless it is scheduled for deletion and still the file
+that was scheduled (fix 6: time first, then the digest) -/
+def isAddedFile (files : List (String × File)) (fs : FileSet) (n : String) : Bool :=
+  !AL.contains fs.entries n &&
+  (match AL.get? fs.sched n with
+    | none => true
+    | some e =>
+      !e.onDisk ||
+      (match AL.get? files n with
+        | some f => decide (e.modTime ≠ some f.mtime) && decide (e.digest ≠ some f.blob)
+        | none => false))
+
+/-- a loaded entry whose file differs from what was read / written (fix 6: `onDiskDigest`) -/
+def isModifiedFile (files : List (String × File)) (p : String × Entry) : Option String :=
+  match AL.get? files p.1, p.2.data with
+  | some f, some _ => if p.2.modTime ≠ some f.mtime ∧ p.2.digest ≠ some f.blob then some p.1 else none
+  | _, _ => none
+
+def isDeletedFile (files : List (String × File)) (p : String × Entry) : Option String :=
+  if AL.contains files p.1 = false ∧ p.2.onDisk = true then some p.1 else none
+
+/-- `ImageSet/DataSet.testForExternalChanges` -/
 def fsTest (files : List (String × File)) (fs : FileSet) : SetRep :=
-  let added := (AL.keys files).filter fun n =>
-    !AL.contains fs.entries n &&
-    (match AL.get? fs.sched n with
-      | none => true
-      | some e =>
-        !e.onDisk ||
-        (match AL.get? files n with
-          | some f => decide (e.modTime ≠ some f.mtime) && decide (e.digest ≠ some f.blob)
-          | none => false))
-  let modified := fs.entries.filterMap fun p =>
-    match AL.get? files p.1, p.2.data with
-    | some f, some _ => if p.2.modTime ≠ some f.mtime ∧ p.2.digest ≠ some f.blob then some p.1 else none
-    | _, _ => none
-  let deleted := fs.entries.filterMap fun p =>
-    if AL.contains files p.1 = false ∧ p.2.onDisk = true then some p.1 else none
-  { modified := modified, added := added, deleted := deleted }
+  { modified := fs.entries.filterMap (isModifiedFile files)
+    added := (AL.keys files).filter (isAddedFile files fs)
+    deleted := fs.entries.filterMap (isDeletedFile files) }
 
 def layerRep (d : Disk) (ln : String) (l : MLayer) (dl : DLayer) : LayerRep :=
-  let t := layerTest d ln l
-  { info := decide (l.infoStamp ≠ some dl.info), modified := t.1, added := t.2.1, deleted := t.2.2 }
+  { info := decide (l.infoStamp ≠ some dl.info), modified := layerModified d ln l, added := layerAdded d ln l,
+    deleted := layerDeleted d ln l }
 
 def LayerRep.isEmpty (r : LayerRep) : Bool :=
   !r.info && r.modified.isEmpty && r.added.isEmpty && r.deleted.isEmpty
 
+def partsReport (s : State) : List (Part × Option Bool) :=
+  allParts.map fun p => (p, (getPart s p).map fun mp => partChanged s.disk p mp.stamp)
+
+/-- layers on disk that the layer set does not hold, unless it has deleted them itself -/
+def layersAdded (s : State) : List String :=
+  (layerNames s.disk).filter fun n => decide (n ∉ s.font.order) && !wasDeletedInMemory s.font.history n
+
+def layersDeleted (s : State) : List String :=
+  s.font.order.filter fun n => decide (n ∉ layerNames s.disk)
+
+def layerEntry (s : State) (ln : String) : Option (String × LayerRep) :=
+  match AL.get? s.disk.layers ln, AL.get? s.font.layers ln with
+  | some dl, some l =>
+    let r := layerRep s.disk ln l dl
+    if r.isEmpty then none else some (ln, r)
+  | _, _ => none
+
+def layersModified (s : State) : List (String × LayerRep) := s.font.order.filterMap (layerEntry s)
+
 /-- the dictionary `Font.testForExternalChanges` returns -/
 def report (s : State) : Report :=
-  let d := s.disk
-  let f := s.font
-  let onDisk := layerNames d
-  { parts := allParts.map fun p => (p, (getPart s p).map fun mp => partChanged d p mp.stamp)
-    defaultLayer := decide (f.default ≠ d.default)
-    order := decide (onDisk ≠ f.order)
-    added := onDisk.filter fun n => decide (n ∉ f.order) && !wasDeletedInMemory f.history n
-    deleted := f.order.filter fun n => decide (n ∉ onDisk)
-    modified := f.order.filterMap fun ln =>
-      match AL.get? d.layers ln, AL.get? f.layers ln with
-      | some dl, some l =>
-        let r := layerRep d ln l dl
-        if r.isEmpty then none else some (ln, r)
-      | _, _ => none
-    images := fsTest d.images f.images
-    data := fsTest d.data f.data }
+  { parts := partsReport s
+    defaultLayer := decide (s.font.default ≠ s.disk.default)
+    order := decide (layerNames s.disk ≠ s.font.order)
+    added := layersAdded s
+    deleted := layersDeleted s
+    modified := layersModified s
+    images := fsTest s.disk.images s.font.images
+    data := fsTest s.disk.data s.font.data }
 
 /-- the state after the test (F6 fix): the new reader becomes the font's reader; layers on disk are
 re-bound to it, the glyph sets of the others belong to the reader that was closed -/
@@ -714,8 +761,7 @@ def reloadLayerEntry (cur : List String) (s : State) (e : String × Bool × List
       | some dl =>
         if AL.contains s.font.layers ln then (s, some .keyError)
         else
-          let l : MLayer := { keys := AL.keys dl.glifs, info := dl.info, infoStamp := some dl.info,
-                              gs := some ⟨ln, AL.keys dl.glifs, true⟩ }
+          let l : MLayer := openLayer ln dl
           ({ s with font := { s.font with layers := AL.set s.font.layers ln l, order := s.font.order ++ [ln],
                                             history := s.font.history ++ [.new ln] } }, none)
   match r1 with
@@ -906,9 +952,7 @@ images and data are listed; nothing else is read -/
 def openFont (zip : Bool) (d : Disk) (empty : Blob) : State :=
   { zip := zip, disk := d, reader := d, emptyGlyph := empty
     font := {
-      layers := d.layers.map fun p =>
-        (p.1, ({ keys := AL.keys p.2.glifs, info := p.2.info, infoStamp := some p.2.info,
-                 gs := some ⟨p.1, AL.keys p.2.glifs, true⟩ } : MLayer))
+      layers := d.layers.map fun p => (p.1, openLayer p.1 p.2)
       order := layerNames d
       default := d.default
       history := (layerNames d).map Action.new ++ (match d.default with
